@@ -1,6 +1,7 @@
 package chainlab
 
 import (
+	"encoding/json"
 	"fmt"
 
 	"go.sia.tech/core/consensus"
@@ -285,7 +286,7 @@ func (a *Auditor) AuditChain() (fs []Finding) {
 	tip := a.Tip
 	ts := cm.TipState()
 	if StateBytes(ts) != StateBytes(tip.L.State) {
-		fs = append(fs, Finding{"tipstate-differs-from-replay", fmt.Sprintf("TipState at node %d differs from the pure replay of the best chain", tip.Idx), map[string]string{"got": describeState(ts), "want": describeState(tip.L.State)}})
+		fs = append(fs, Finding{"tipstate-differs-from-replay", fmt.Sprintf("TipState at node %d differs from the pure replay of the best chain", tip.Idx), map[string]any{"got": describeState(ts), "want": describeState(tip.L.State), "differing_fields": StateDiff(ts, tip.L.State)}})
 	}
 	path := append([]*Node{a.T.Root}, tip.PathFromGenesis()...)
 	for h, nd := range path {
@@ -414,4 +415,20 @@ func AuditElementsAgainst(n *TestNode, l *Ledger) (fs []Finding) {
 		}
 	}
 	return
+}
+
+// StateDiff lists the JSON fields in which two states differ.
+func StateDiff(a, b consensus.State) map[string][2]string {
+	out := map[string][2]string{}
+	var ma, mb map[string]json.RawMessage
+	ja, _ := json.Marshal(a)
+	jb, _ := json.Marshal(b)
+	json.Unmarshal(ja, &ma)
+	json.Unmarshal(jb, &mb)
+	for k, v := range ma {
+		if string(v) != string(mb[k]) {
+			out[k] = [2]string{clip(string(v)), clip(string(mb[k]))}
+		}
+	}
+	return out
 }
